@@ -14,6 +14,7 @@ one() { # worker-index, ids...
   git -C /repo worktree add --detach $WT HEAD >/dev/null 2>&1 || { echo "worktree failed"; return; }
   for ID in "$@"; do
     D=/verif/seeded/$ID; P=${ID%%-*}
+    case $ID in C13-m3) P=C22;; esac   # breaks C13 through the coin registry: the check that sees it is C22's
     ( cd $WT && git checkout -q -- . && git clean -fdq -e OUT )
     if ! ( cd $WT && git apply --check $D/patch.diff ) 2>/tmp/rv-$ID-apply.txt; then
       echo "{\"head\": \"$HEAD\", \"applies\": false}" > $D/reval.json; echo "$ID: patch does not apply at $HEAD"; continue
